@@ -265,6 +265,8 @@ func checkC04(c *Ctx) {
 	// the scope a derivation is handed is the one registered under that derivation's canonical key
 	c.checkSubscopeSource("O2 scope-by-canonical-key")
 	c.checkStringMapMutations("O4 no-mutation")
+	// ... and no caller is handed the live tag map: the snapshot attaches a per-scope copy (shared with C11 O1)
+	c.shared(checkC11, map[string]string{"O1 snapshot-entries": "O4 snapshot-copies-tags"})
 	for _, f := range []string{"prefix", "separator", "tags"} {
 		c.checkConstructorOnly("O4 immutable", "", "scope", f)
 	}
